@@ -126,7 +126,11 @@ def inert_cases(draw, feats, sizes):
             kinds.append(('above', lines[i].kind if i < n else 'eof', form, len(ls)))
         else:
             c = draw(st.sampled_from(CONTENTS))
-            if draw(st.integers(0, 3)) == 0 and '*/' not in c:
+            if lines[i].kind.endswith('_close') and draw(st.integers(0, 2)) == 0 and '*/' not in c:
+                # several comments may follow a closing brace
+                trail[i] = f' /*{c}*/ /* second */ // third'
+                kinds.append(('trail', lines[i].kind, '/*', 1))
+            elif draw(st.integers(0, 3)) == 0 and '*/' not in c:
                 trail[i] = f' /*{c}*/'
                 kinds.append(('trail', lines[i].kind, '/*', 1))
             else:
